@@ -2044,7 +2044,9 @@ class Builder:
                     # Otherwise: free the qubits.
                     if not params.sequential:
                         for q in qubits:
-                            q.free()
+                            # NOTE only free the qubit in memory: the Qubit object
+                            # stays in use, it gets the pair of the next attempt.
+                            self._build_cmds_qfree(q.qubit_id)
 
                 loop.set_cleanup_code(cleanup)
 
@@ -2084,7 +2086,9 @@ class Builder:
                     # Otherwise: free the qubits.
                     if not params.sequential:
                         for q in qubits:
-                            q.free()
+                            # NOTE only free the qubit in memory: the Qubit object
+                            # stays in use, it gets the pair of the next attempt.
+                            self._build_cmds_qfree(q.qubit_id)
 
                 loop.set_cleanup_code(cleanup)
 
